@@ -590,6 +590,55 @@ def rule_K_COPULAS(ctx):
     ctx.ob("K-COPULAS", "no foreign entries", all(g in want for g in got), "%s" % [g for g in got if g not in want])
 
 
+def _mentions(node, local):
+    if isinstance(node, dict):
+        if "local" in node and "proj" in node and node["local"] == local:
+            return True
+        return any(_mentions(v, local) for v in node.values())
+    if isinstance(node, list):
+        return any(_mentions(v, local) for v in node)
+    return False
+
+
+def _only_zero_tested(b, local, depth):
+    """every use of `local` is a comparison with the constant 0 (or a plain copy into a local of which the same holds)"""
+    if depth > 3:
+        return False
+    used = False
+    for bl in b["blocks"]:
+        if bl["cleanup"]:
+            continue
+        for s in bl["stmts"]:
+            if s["k"] != "Assign":
+                if _mentions(s, local) and not s["k"].startswith("Storage"):
+                    return False
+                continue
+            if _mentions(s["place"], local) and s["place"]["local"] == local and not s["place"]["proj"]:
+                return False          # written again
+            rv = s["rv"]
+            if not _mentions(rv, local):
+                continue
+            used = True
+            if rv["k"] == "Use" and rv["op"]["k"] in ("Copy", "Move") and not rv["op"]["place"]["proj"] and not s["place"]["proj"]:
+                if not _only_zero_tested(b, s["place"]["local"], depth + 1):
+                    return False
+                continue
+            if rv["k"] == "BinaryOp" and rv["op"] in ("Eq", "Ne", "Lt", "Le", "Gt", "Ge"):
+                sides = [rv["l"], rv["r"]]
+                other = [o for o in sides if not _mentions(o, local)]
+                mine = [o for o in sides if _mentions(o, local)]
+                if len(other) == 1 and len(mine) == 1 and not mine[0]["place"]["proj"] and other[0]["k"] == "Const" and str(other[0].get("v")) in ("0", "0_usize"):
+                    continue
+            return False
+        t = bl["term"]
+        if t["k"] == "Call":
+            if _mentions(t["args"], local) or (t["dest"]["local"] == local and t["dest"]["proj"]):
+                return False
+        elif _mentions({k_: v for k_, v in t.items() if k_ not in ("line", "exp")}, local):
+            return False
+    return used
+
+
 def rule_U_CHARS(ctx, modules=("impl_lexical::parser", "impl_enum::parser")):
     """borders into the char environment are char counts"""
     import mir as M
@@ -605,6 +654,9 @@ def rule_U_CHARS(ctx, modules=("impl_lexical::parser", "impl_enum::parser")):
         for bi, t in M.cfg(b).calls("len"):
             cp = M.callee_path(t) or ""
             if cp.startswith("core::str::") or cp.startswith("std::string::String::"):
+                # `buffer.len() == 0` is `buffer.is_empty()`: a byte length that is only compared with zero is no border
+                if not t["dest"]["proj"] and _only_zero_tested(b, t["dest"]["local"], 0):
+                    continue
                 bad.append((b, t))
     ctx.floor("parser functions scanned for byte lengths", n, 25)
     for b, t in bad:
